@@ -649,10 +649,15 @@ class WorkTree:
             except KeyError:
                 keyid = None
 
+        old_head: ObjectID | None = None
         if ref is None:
             # Create a dangling commit
             c.parents = list(merge_heads)
         else:
+            # The value read here is both the new commit's parent and the
+            # old value of the compare-and-swap below; reading the ref a
+            # second time would let a commit that lands in between be
+            # dropped from history without either side noticing.
             try:
                 old_head = self._repo.refs[ref]
                 c.parents = [old_head, *merge_heads]
@@ -725,17 +730,14 @@ class WorkTree:
                 c.gpgsig = vendor.sign(c.as_raw_string(), keyid=keyid)
             self._repo.object_store.add_object(c)
         else:
-            try:
-                old_head = self._repo.refs[ref]
-                if should_sign:
-                    from dulwich.signature import get_signature_vendor
+            if should_sign:
+                from dulwich.signature import get_signature_vendor
 
-                    vendor = get_signature_vendor(config=config)
-                    c.gpgsig = vendor.sign(c.as_raw_string(), keyid=keyid)
-                self._repo.object_store.add_object(c)
-                message_bytes = (
-                    message.encode() if isinstance(message, str) else message
-                )
+                vendor = get_signature_vendor(config=config)
+                c.gpgsig = vendor.sign(c.as_raw_string(), keyid=keyid)
+            self._repo.object_store.add_object(c)
+            message_bytes = message.encode() if isinstance(message, str) else message
+            if old_head is not None:
                 ok = self._repo.refs.set_if_equals(
                     ref,
                     old_head,
@@ -747,17 +749,7 @@ class WorkTree:
                     else None,
                     timezone=commit_timezone,
                 )
-            except KeyError:
-                c.parents = list(merge_heads)
-                if should_sign:
-                    from dulwich.signature import get_signature_vendor
-
-                    vendor = get_signature_vendor(config=config)
-                    c.gpgsig = vendor.sign(c.as_raw_string(), keyid=keyid)
-                self._repo.object_store.add_object(c)
-                message_bytes = (
-                    message.encode() if isinstance(message, str) else message
-                )
+            else:
                 ok = self._repo.refs.add_if_new(
                     ref,
                     c.id,
